@@ -42,7 +42,9 @@ func (e *scriptEnv) add(name string, v object.Object) *scriptEnv {
 
 // runScript evaluates src with the given globals plus the default builtins
 // (len, list, try, error, sorted, ...) and two recording builtins.
-func runScript(src string, env *scriptEnv) *scriptRun {
+func runScript(src string, env *scriptEnv) *scriptRun { return runScriptWith(src, env, nil) }
+
+func runScriptWith(src string, env *scriptEnv, onProbe func(r *scriptRun, args []object.Object)) *scriptRun {
 	ctx := context.Background()
 	r := &scriptRun{stage: "parse"}
 	prog, err := parser.Parse(ctx, src)
@@ -64,6 +66,9 @@ func runScript(src string, env *scriptEnv) *scriptRun {
 	globals["probe"] = object.NewBuiltin("probe", func(ctx context.Context, args ...object.Object) object.Object {
 		if r.machine != nil {
 			r.sps = append(r.sps, r.machine.sp)
+			if onProbe != nil {
+				onProbe(r, args)
+			}
 		}
 		return object.Nil
 	})
